@@ -82,6 +82,17 @@ pub trait RealNumber: Copy + Sized + PartialEq + PartialOrd
     // added for C17 (Minkowski): FromPrimitive::from_u16
     spec fn from_u16_spec(x: u16) -> Self;
     fn from_u16(x: u16) -> (r: Option<Self>) ensures r == Some(Self::from_u16_spec(x));
+    // added for C10 (SVC optimiser): Float::min_value
+    spec fn min_value_spec() -> Self;
+    fn min_value() -> (r: Self) ensures r == Self::min_value_spec();
+    // added for C13 (DBSCAN::predict): num_traits::NumCast::from, called as `T::from(class)` with class: usize
+    // (covered by A-REALNUMBER-TRAIT: never None for f32/f64; the value is uninterpreted per source type N)
+    spec fn from_spec<N>(n: N) -> Self;
+    fn from<N>(n: N) -> (r: Option<Self>) ensures r == Some(Self::from_spec(n));
+    // added for C12 (KMeans::fit: `T::from(sums[i][j])` with sums[i][j]: T): NumCast::from applied to a value of the
+    // SAME type returns that value (f32 -> f32 / f64 -> f64 is `*self as Self`; covered by A-REALNUMBER-TRAIT)
+    proof fn from_self_is_identity()
+        ensures forall|x: Self| #[trigger] Self::from_spec::<Self>(x) == x;
 
     // crate::math::num::RealNumber::square has a default body in /repo: extracted verbatim
 //@extract src/math/num.rs :: pub trait RealNumber: Float + FromPrimitive + Debug + Display + Copy + Sum + Product + AddAssign + SubAssign + MulAssign + DivAssign :: square :: ret=r canary=no
